@@ -603,11 +603,35 @@ func (in *Interp) visit(f *Frame, b *ssa.BasicBlock, instr ssa.Instruction) {
 		x := in.get(f, ins.X).(*SliceV)
 		n := ins.Type().Underlying().(*types.Pointer).Elem().Underlying().(*types.Array).Len()
 		in.rtCheck(ts.Cmp(OpUlt, x.n, ts.BV(64, uint64(n))), "slice to array pointer: length too short")
-		if x.nilS {
+		switch {
+		case x.nilS:
 			setv(ins, Ptr{})
-		} else {
+		case x.soff == nil:
 			arr := Value(Array(x.a[x.off : x.off+int(n)]))
 			setv(ins, Ptr{&arr})
+		default:
+			// the slice starts at a symbolic position of its backing array (slices re-sliced under a symbolic
+			// guard): one array pointer per feasible start, each aliasing the backing array at that position
+			var alts []Alt
+			for k := 0; x.off+k+int(n) <= len(x.a); k++ {
+				c := ts.Eq(x.soff, ts.BV(64, uint64(k)))
+				if c.IsFalse() {
+					continue
+				}
+				arr := Value(Array(x.a[x.off+k : x.off+k+int(n)]))
+				alts = append(alts, Alt{c, Ptr{&arr}})
+			}
+			switch len(alts) {
+			case 0:
+				setv(ins, Ptr{})
+			case 1:
+				setv(ins, alts[0].v)
+			default:
+				if len(alts) > in.maxUnion {
+					abortf("slice to array pointer with symbolic offset over %d positions", len(alts))
+				}
+				setv(ins, &Union{alts: alts})
+			}
 		}
 	case *ssa.MakeInterface:
 		setv(ins, Iface{t: ins.X.Type(), v: in.get(f, ins.X)})
